@@ -122,7 +122,24 @@ func (t *ThreadPool) ThreadCount() int {
 }
 
 func (t *ThreadPool) AddTask(promise *Promise) {
-	t.TaskQueue <- promise
+	enqueueTask(t.TaskQueue, promise)
+}
+
+// Hand a task over to the workers of a pool without ever blocking the caller.
+//
+// The task queue is bounded and its only consumers are the workers of the pool.
+// A worker that blocks on a full queue (while starting a new promise or while
+// scheduling the continuations of a promise it has just settled, which happens
+// with the promise's mutex held) stops draining the queue, so once every worker
+// is stuck like that nothing can ever make room again and the program hangs.
+// When the queue is full the send is finished by a separate goroutine instead,
+// it completes as soon as a worker takes a task off the queue.
+func enqueueTask(queue chan *Promise, task *Promise) {
+	select {
+	case queue <- task:
+	default:
+		go func() { queue <- task }()
+	}
 }
 
 func (t *ThreadPool) Close() {
